@@ -1,5 +1,5 @@
 //@file src/half_connection/packet_sender.rs
-//@props C03 C06 C20
+//@props C03 C06 C20 C02 C04 C09 C12
 // T9 cover for the trusted contract of PacketSender::new (contracts/packet_sender.vspec, spec fn `new_state`): the
 // constructor uses `(0..n).map(|_| ..).collect()`, which Verus rejects, so the field values it establishes are TESTED on
 // samples here (not proved); that those field values imply the four invariants is proved (lemma_new_state_wf).
